@@ -160,6 +160,20 @@ def run_precip(rec, F, cnt, sig):
                 sig.add('grid_changed')
             if info['capped']:
                 break
+            if ci == len(rec['ops']) - 1 and not cfg['backend'].startswith('real_'):
+                # informational probe (not part of the statement, never a violation): does the restored model continue exactly like the
+                # one that was never interrupted?  Counts how often the saved state is also the complete state.
+                try:
+                    ext = dict(op); ext['T'] = op['T'] * 0.25
+                    m2.addCouplingModel(W.Observer([], 60))
+                    obs.steps = 0; obs.step_cap = 60
+                    W.run_ops(m, [ext], obs)
+                    W.run_ops(m2, [ext], m2.couplingModels[-1] if hasattr(m2, 'couplingModels') else obs)
+                    a, b = precip_snapshot(m), precip_snapshot(m2)
+                    same_all = all(same(a[k], b.get(k)) for k in a if k != 'n') and a['n'] == b['n']
+                    cnt['continuation_identical' if same_all else 'continuation_differs'] = cnt.get('continuation_identical' if same_all else 'continuation_differs', 0) + 1
+                except Exception:  # noqa
+                    cnt['continuation_probe_failed'] = cnt.get('continuation_probe_failed', 0) + 1
     finally:
         shutil.rmtree(tmp, ignore_errors=True)
 
